@@ -36,6 +36,15 @@ func init() {
 	more["strings.Split"] = libSplit
 	more["strconv.Atoi"] = libAtoi
 	more["strings.Contains"] = libContains
+	more["strings.ToLower"] = func(g *FuncGen, c *ast.CallExpr, callee *types.Func, st *State) []Val {
+		a := g.ev(c.Args[0], st)
+		return []Val{{fmt.Sprintf("(toLower %s)", a.T), types.Typ[types.String], "Bytes"}}
+	}
+	more["strings.Join"] = func(g *FuncGen, c *ast.CallExpr, callee *types.Func, st *State) []Val {
+		a := g.ev(c.Args[0], st)
+		b := g.ev(c.Args[1], st)
+		return []Val{{fmt.Sprintf("(joinSeq %s %s)", a.T, b.T), types.Typ[types.String], "Bytes"}}
+	}
 	more["strings.LastIndex"] = libIndexOf
 	more["strings.Index"] = libIndexOf
 	for k, v := range more {
